@@ -10,7 +10,7 @@
 (* conns is a function 1..N -> [alive, seqno, rtt]; configuration order is the *)
 (* index order.  Seqnos are natural numbers (no wrap-around: 2^32-1 is one     *)
 (* ahead of 2^32-2 and not behind anything).  Round-trip ties are left free.   *)
-EXTENDS Naturals, FiniteSets, Sequences
+EXTENDS Naturals, FiniteSets
 
 Newest(conns)   == CHOOSE m \in {conns[i].seqno : i \in DOMAIN conns} :
                       \A i \in DOMAIN conns : conns[i].seqno <= m
@@ -25,14 +25,6 @@ Strategies == {"best-ping", "first-working"}
 Choices(strategy, conns, prev) ==
   IF DOMAIN conns = {} \/ GoodSet(conns) = {} THEN {prev}
   ELSE IF strategy = "best-ping" THEN BestPing(conns) ELSE FirstWorking(conns)
-
-\* "Configuration order": servers are dialled concurrently and join the pool as their handshakes finish, but the
-\* pool lists them (conns, Status) by their index in the configuration, whatever order they connected in.
-RECURSIVE ConfigOrder(_)
-ConfigOrder(ids) == IF ids = {} THEN <<>>
-                    ELSE LET m == CHOOSE x \in ids : \A y \in ids : x <= y IN <<m>> \o ConfigOrder(ids \ {m})
-\* a connection with configuration index id joins the pool whose list is `order`
-AddConn(order, id) == ConfigOrder({order[i] : i \in DOMAIN order} \cup {id})
 
 \* the refresh as an action on (best, best')
 UpdateBest(strategy, conns, best, bestNext) == bestNext \in Choices(strategy, conns, best)
